@@ -42,6 +42,8 @@ type Query implements Named {
   col(c: Color): Color
   fail(s: String): String
   big(x: Int64, y: Float64, t: Time, id: ID): String
+  hidden: String
+  private: Int
 }
 type Mutation { set(s: String!): Query }
 type Subscription { watch(id: String): Query }
@@ -59,6 +61,10 @@ type RQ struct {
 	Any  interface{}
 	Anys []interface{}
 	Strs []string
+	// Go fields a GraphQL field name matches without regard to case but that are not exported
+	hidden  string
+	Private int
+	private int
 }
 
 type ROther struct {
@@ -92,7 +98,7 @@ type RSchema struct {
 }
 
 func newRQ(depth int) *RQ {
-	q := &RQ{Str: "s", Num: 1, When: time.Unix(0, 0).UTC(), Strs: []string{"a", "b"}}
+	q := &RQ{Str: "s", Num: 1, When: time.Unix(0, 0).UTC(), Strs: []string{"a", "b"}, hidden: "h", private: 2, Private: 3}
 	if depth > 0 {
 		q.Obj = newRQ(depth - 1)
 		q.Objs = []*RQ{newRQ(depth - 1), nil}
@@ -353,6 +359,17 @@ func runBody(in *Input, out *Outcome) {
 		var b bytes.Buffer
 		_ = ggql.WriteJSONValue(&b, res, 2)
 		mark("sdl-printed-and-introspected")
+		// requests derived from the accepted schema: every field of the operation types with a
+		// value for each of its arguments (defaults of the schema's own input types get filled in)
+		if reqs := probeRequests(root); len(reqs) > 0 {
+			proot := ggql.NewRoot(&probeNode{})
+			if perr := proot.ParseString(strings.Split(in.Text, SDLNext)[0]); perr == nil {
+				for _, rq := range reqs {
+					_ = proot.ResolveString(rq, "", nil)
+				}
+				mark("sdl-probe-requests-resolved")
+			}
+		}
 	case "exe":
 		roots, err := NewRoots()
 		if err != nil {
@@ -420,6 +437,83 @@ func runBody(in *Input, out *Outcome) {
 		}
 		mark("writer-ran")
 	}
+}
+
+// probeNode resolves every field to another probeNode (objects) - leaves fail to coerce, which is fine.
+type probeNode struct{ depth int }
+
+func (n *probeNode) Resolve(field *ggql.Field, args map[string]interface{}) (interface{}, error) {
+	if n.depth > 3 {
+		return nil, nil
+	}
+	return &probeNode{depth: n.depth + 1}, nil
+}
+
+// probeLiteral writes a literal for an input type: {} for input objects (so that defaults are
+// filled in), lists with one member, the first value of an enum.
+func probeLiteral(t ggql.Type, depth int) string {
+	switch tt := t.(type) {
+	case *ggql.NonNull:
+		return probeLiteral(tt.Base, depth)
+	case *ggql.List:
+		if depth > 3 {
+			return "[]"
+		}
+		return "[" + probeLiteral(tt.Base, depth+1) + "]"
+	case *ggql.Input:
+		return "{}"
+	case *ggql.Enum:
+		if vs := tt.Values(); len(vs) > 0 {
+			return string(vs[0].Value)
+		}
+		return "X"
+	}
+	switch t.Name() {
+	case "Int", "Int64":
+		return "1"
+	case "Float", "Float64":
+		return "1.5"
+	case "Boolean":
+		return "true"
+	case "Time":
+		return "\"2020-01-02T03:04:05Z\""
+	}
+	return "\"s\""
+}
+
+// probeRequests builds one request per field of the operation types of an accepted schema.
+func probeRequests(root *ggql.Root) (out []string) {
+	for _, op := range []string{"Query", "Mutation"} {
+		obj, _ := root.GetType(op).(*ggql.Object)
+		if obj == nil {
+			continue
+		}
+		for i, f := range obj.Fields() {
+			if i >= 12 {
+				break
+			}
+			var b strings.Builder
+			if op == "Mutation" {
+				b.WriteString("mutation ")
+			}
+			b.WriteString("{" + f.Name())
+			if as := f.Args(); len(as) > 0 {
+				b.WriteString("(")
+				for _, a := range as {
+					b.WriteString(a.Name() + ": " + probeLiteral(a.Type, 0) + " ")
+				}
+				b.WriteString(")")
+			}
+			switch inner := ggql.BaseType(f.Type).(type) {
+			case *ggql.Object, *ggql.Interface, *ggql.Union:
+				_ = inner
+				b.WriteString("{__typename}")
+			}
+			b.WriteString("}")
+			out = append(out, b.String())
+		}
+	}
+	return
 }
 
 // walkType calls the printing methods of everything hanging off a type: fields, arguments, the
